@@ -222,11 +222,11 @@ fn judge(acc: &mut Acc, kind: &str, wrapped: &str, input: &V, conv: &str, sc: Sc
         if o.disp == "@not-a-member" { what.push("the erased selector returned something that is not a member of the population".into()); }
         if o.next != concrete.next { what.push("the generator is left in a different state than by the wrapped implementation".into()); }
         if o.log != concrete.log { what.push(format!("component calls differ: erased {} vs wrapped {}", calls(o), calls(concrete))); }
-        if o.res != spec_res { what.push(format!("differs from the Spec: {spec_res}")); }
+        if !same_err_text(&o.res, spec_res) { what.push(format!("differs from the Spec: {spec_res}")); }
         if compare_calls && calls(o) != spec_calls { what.push(format!("component calls differ from the Spec: {spec_calls}")); }
         if !what.is_empty() {
             acc.r.violate(json!({"case": case, "real_erased": o.res, "real_wrapped": concrete.res, "spec": spec_res, "what": what}));
-        } else if o.res != impl_s || o.next != shadow_next {
+        } else if !same_err_text(&o.res, impl_s) || o.next != shadow_next {
             acc.r.disagree(json!({"case": case, "real": o.res, "impl": impl_s, "same_generator_state_after": o.next == shadow_next}));
         }
     }
@@ -684,9 +684,7 @@ pub fn run(cfg: &Cfg) -> Report {
             _ => real_selector_oracle(&mut acc, &mut g, &base, if (i / 6) % 10 == 3 { Some([1000u64, 4097, 8192, 8193, 20_000, 70_001, 300_007, 1_048_577][((i / 60) % 8) as usize]) } else { None }),
         }
     });
-    zero_sized_cases(&mut rep, seed);
-    panic_history_cases(&mut rep, seed);
-    byte_draw_cases(&mut rep, seed);
+    crate::watch::guarded("dyn: zero-sized genomes / panic history / byte draws behind erased forms", || { zero_sized_cases(&mut rep, seed); panic_history_cases(&mut rep, seed); byte_draw_cases(&mut rep, seed); });
     // ---- inventory: proc-macro source vs Lean model vs what was compiled here
     let mut d = crate::driver::Driver::spawn(&cfg.driver);
     let model: Vec<String> = d.ask("ops flavours").split(',').map(|s| s.to_string()).collect();
